@@ -90,6 +90,10 @@ def _gen_callers(tier, rng, scale):
         n = rng.choice([300, 2000, 3000, 20000, 120000]) if k % 6 else rng.choice([120000, 160000])
         lim = rng.choice([0, 0, 1, 512, 4096, 65536, 10 ** 9]) if n < 120000 else rng.choice([0, 65536, 2 * 1024 * 1024 + 7, 10 ** 9, 10 ** 9])
         out.append({"kind": "caller", "items": [[n, lim]], "creators": []})
+    # the other caller: a .sym file downloaded from a symbol server (download_to_file); the first response is cut short - inside a gzip stream of a
+    # well-formed message, or by closing the connection before Content-Length bytes were sent - or complete
+    for _ in range((5 if tier == "quick" else 50) * scale):
+        out.append({"kind": "caller", "items": [["D", rng.choice([50, 3000, 40000]), rng.choice(["gzip", "gzip", "identity"]), rng.choice([0, 1, 400, 900, 999, 1000])]], "creators": []})
     return out
 
 
@@ -357,7 +361,8 @@ def _evaluate_callers(cases):
     shutil.rmtree(base, ignore_errors=True)
     os.makedirs(base)
     try:
-        lines = ["%s %d %d" % (os.path.join(base, "w%d" % i), c["items"][0][0], c["items"][0][1]) for i, c in enumerate(cases)]
+        lines = [("D %s %d %s %d" % (os.path.join(base, "w%d" % i), c["items"][0][1], c["items"][0][2], c["items"][0][3])) if c["items"][0][0] == "D"
+                 else "%s %d %d" % (os.path.join(base, "w%d" % i), c["items"][0][0], c["items"][0][1]) for i, c in enumerate(cases)]
         rc, outl, err = K.run_lines(os.path.join(bindir, "h_ws"), [], lines, timeout=1800)
     finally:
         shutil.rmtree(base, ignore_errors=True)
@@ -373,6 +378,7 @@ def _evaluate_callers(cases):
             continue
         code = lambda v: 0 if v == "absent" else 1 if v == "complete" else 2
         st["runs"] += 1
+        st["downloads"] = st.get("downloads", 0) + (1 if l.startswith("dl ") else 0)
         st["first"][kv["first"].split(":")[0]] = st["first"].get(kv["first"].split(":")[0], 0) + 1
         st["first_attempt_failed_write"] += 1 if kv["first"] != "complete" else 0
         terms.append("(%d, %d, %s)" % (code(kv["first"]), code(kv["retry"]), "true" if kv["ok2"] == "1" else "false"))
